@@ -2000,3 +2000,29 @@ func (c *Ctx) ReturnOnlyUnder(fnSpec string, idx int, cond, pattern, desc string
 	}
 	c.add("P", fnSpec, role, desc, report.OK, fmt.Sprintf("%d edge(s)", n), c.fnPos(f))
 }
+
+// ReachedWhenAny: ReachedWhen under any one of several equivalent spellings of the condition (e.g. `!x.IsZero()` and
+// `x.IsPositive()` for a value that is never negative). The obligation is discharged by the first spelling that holds;
+// if none does, the report is the one for the first spelling.
+func (c *Ctx) ReachedWhenAny(fnSpec, callee string, conds []string, desc string) {
+	var first []report.Obligation
+	for i, cond := range conds {
+		n := len(c.R.Obligations)
+		c.ReachedWhen(fnSpec, callee, cond, desc)
+		added := append([]report.Obligation{}, c.R.Obligations[n:]...)
+		ok := len(added) > 0
+		for _, o := range added {
+			if o.Status != report.OK {
+				ok = false
+			}
+		}
+		if ok {
+			return
+		}
+		if i == 0 {
+			first = added
+		}
+		c.R.Obligations = c.R.Obligations[:n]
+	}
+	c.R.Obligations = append(c.R.Obligations, first...)
+}
